@@ -157,6 +157,22 @@ def rebuild(obj, attr_name, new_value):
     return type(obj)(**kwargs)
 
 
+_FIRST_INSTANCE = {}
+
+
+def _first_instance(cls):
+    """A seed instance of cls from the parsed corpus / hand seeds (cached per process)."""
+    if not _FIRST_INSTANCE:
+        for c, objs in harvest_objects.instances_by_class().items():
+            if objs:
+                _FIRST_INSTANCE.setdefault(c, objs[0])
+        for c, objs in hand_seeds().items():
+            if objs:
+                _FIRST_INSTANCE.setdefault(c, objs[0])
+        _FIRST_INSTANCE.setdefault(type(None), None)
+    return _FIRST_INSTANCE.get(cls)
+
+
 def array_item_alphabet(arr, wide):
     """Items that may be inserted into a vector: members of the item enum, GREASE/unknown wrappers, existing items."""
     out = []
@@ -182,6 +198,29 @@ def array_item_alphabet(arr, wide):
     items = list(arr)
     if items and en is None:
         out.append(('dup-first', items[0]))
+    if en is None and isinstance(ic, type):
+        # vectors of parsable items: one seed instance of every class the item parser can produce (the variants of a
+        # variant parser, or the item class and its concrete subclasses) that the vector does not hold yet
+        held = {type(x) for x in items}
+        cands = []
+        if hasattr(ic, '_get_variants'):
+            try:
+                for group in ic._get_variants().values():
+                    cands += [c for c in group if isinstance(c, type)]
+            except Exception:  # noqa
+                cands = []
+        else:
+            cands = [ic] + [c for c in classes.parsable_classes() if issubclass(c, ic) and c is not ic]
+        seen = set()
+        for c in cands:
+            if c in held or c in seen:
+                continue
+            seen.add(c)
+            inst = _first_instance(c)
+            if inst is not None:
+                out.append(('new:%s' % c.__name__, inst))
+        if not wide:
+            out = out[:2] + sorted(out[2:], key=lambda t: t[0])[:40]
     if not items and en is None and getattr(param, 'item_size', None):
         out += [('int:0', 0), ('int:255', 255)]
     return out
@@ -422,7 +461,107 @@ def hand_seeds():
     return out
 
 
-def seed_objects():
+def constructible_with_defaults(so):
+    """[(class, required kwargs, defaulted argument names)] - classes with at least one defaulted constructor
+    argument; the required arguments are taken from a seed object of `so` ({class: [objects]})."""
+    import inspect
+    out = []
+    for cls in classes.parsable_classes():
+        import enum
+        if issubclass(cls, enum.Enum):
+            continue
+        try:
+            sig = inspect.signature(cls.__init__)
+        except (TypeError, ValueError):
+            continue
+        params = [p for p in list(sig.parameters.values())[1:] if p.kind not in (p.VAR_POSITIONAL, p.VAR_KEYWORD)]
+        if not any(p.default is not inspect._empty for p in params):
+            continue
+        req = [p.name for p in params if p.default is inspect._empty]
+        seeds = so.get(cls, [])
+        kwargs = None
+        if not req:
+            kwargs = {}
+        else:
+            for s in seeds:
+                try:
+                    kwargs = {}
+                    for name in req:
+                        v = getattr(s, name) if hasattr(s, name) else getattr(s, '_' + name)
+                        kwargs[name] = v
+                    break
+                except AttributeError:
+                    kwargs = None
+        if kwargs is None:
+            continue
+        try:
+            cls(**kwargs)
+        except Exception:  # noqa - defaults alone are not a valid object: take None-defaulted fields from a seed
+            done = False
+            for s in seeds:
+                kw2 = dict(kwargs)
+                for p in params:
+                    if p.default is None and (hasattr(s, p.name) or hasattr(s, '_' + p.name)):
+                        kw2[p.name] = getattr(s, p.name) if hasattr(s, p.name) else getattr(s, '_' + p.name)
+                try:
+                    cls(**kw2)
+                    kwargs = kw2
+                    done = True
+                    break
+                except Exception:  # noqa
+                    continue
+            if not done:
+                continue
+        out.append((cls, kwargs, [p.name for p in params if p.default is not inspect._empty and p.name not in kwargs]))
+    return out
+
+
+
+
+def default_constructed(so):
+    """{class: [object]} - each class built with only its required arguments (the defaults of all others): the
+    object every user of the constructor gets.  Defaults that differ from one construction to the next (the
+    current time, random cookies) are replaced by the value of a corpus seed, so that the seed set is the same in
+    every process; a class for which that is not possible is left out."""
+    import copy
+    out = {}
+    nc = _not_constructible()
+    for cls, kwargs, defaulted in constructible_with_defaults(so):
+        try:
+            a = cls(**copy.deepcopy(kwargs))
+            b = cls(**copy.deepcopy(kwargs))
+        except nc:
+            continue
+        try:
+            da, db = canon.dump(a), canon.dump(b)
+        except Exception:  # noqa
+            continue
+        if da != db:
+            kw = dict(kwargs)
+            fixed = False
+            for s in so.get(cls, []):
+                for name in defaulted:
+                    try:
+                        va, vb = getattr(a, name), getattr(b, name)
+                        if canon.dump(va) != canon.dump(vb):
+                            kw[name] = getattr(s, name)
+                    except AttributeError:
+                        continue
+                try:
+                    a = cls(**copy.deepcopy(kw))
+                    b = cls(**copy.deepcopy(kw))
+                    if canon.dump(a) == canon.dump(b):
+                        fixed = True
+                        break
+                except nc:
+                    continue
+            if not fixed:
+                continue
+        out[cls] = [a]
+    return out
+
+
+def base_seed_objects():
     """{class: [objects]} - every instance met in the parsed corpus (nested values included), every member of
     enum-typed parsable classes, hand-written seeds; restricted to concrete parsable classes."""
     inst = harvest_objects.instances_by_class()
@@ -437,6 +576,17 @@ def seed_objects():
             for o in v:
                 if repr(canon.dump(o)) not in have:
                     out.setdefault(c, []).append(o)
+    return out
+
+
+def seed_objects():
+    """base_seed_objects() plus the default-constructed object of every class that has defaulted arguments."""
+    out = base_seed_objects()
+    for c, objs in default_constructed(out).items():
+        have = {repr(canon.dump(x)) for x in out.get(c, [])}
+        for o in objs:
+            if repr(canon.dump(o)) not in have:
+                out.setdefault(c, []).append(o)
     return out
 
 
